@@ -354,7 +354,7 @@ def twin_rejects(k: int, w: int) -> bool:
 
 def when_and_params_use_expression(a: int, b: int, c: int) -> bool:
     """
-    pre: -8 <= a <= 8 and -8 <= b <= 8 and -8 <= c <= 8
+    pre: -3 <= a <= 3 and -3 <= b <= 3 and -3 <= c <= 3
     post: _
     """
     x = (a, b, c)
@@ -363,7 +363,7 @@ def when_and_params_use_expression(a: int, b: int, c: int) -> bool:
     inst._resolve_params(x)
     val = inst.params["phi"]
     inst._unresolve_params()
-    return cond == (a < b <= c) and val == a * b - c and type(val) is int and isinstance(inst.params["phi"], str) is False and str(inst.params["phi"]) == "x[0] * x[1] - x[2]"
+    return cond == (a < b <= c) and val == a * b - c and type(val) is int and inst.params["phi"] == "x[0] * x[1] - x[2]"
 
 ''')
     nwrap = 23
@@ -373,7 +373,7 @@ def when_and_params_use_expression(a: int, b: int, c: int) -> bool:
                       "desc": "every construct outside the documented grammar (solver-chosen from the table), embedded in template #%d, raises InvalidExpression at construction (Expression, .when, string parameter) without touching x" % w})
     parts.append('assert len(WRAP) == %d\n\n' % nwrap)
     conds.append({"fn": "twin_rejects", "twin": True, "timeout_s": 60})
-    conds.append({"fn": "when_and_params_use_expression", "desc": "Instruction.when / string parameters evaluate through Expression: condition and resolved parameter equal Python's value for all outcomes"})
+    conds.append({"fn": "when_and_params_use_expression", "timeout_s": 90, "desc": "Instruction.when / string parameters evaluate through Expression: condition and resolved parameter equal Python's value for all outcomes"})
     return "".join(parts), conds, srcs
 
 
